@@ -5487,6 +5487,20 @@ def map_partitions(
         if isinstance(getattr(value, "expr", value), expr.Expr):
             kwargs[key] = expr._OperandRef(len(args))
             args.append(value)
+    # Partition i of the output reads partition i of every collection (or the
+    # only partition of it); there is no alignment
+    npartitions = {
+        arg.npartitions
+        for arg in args
+        if isinstance(getattr(arg, "expr", arg), expr.Expr)
+    } - {1}
+    if len(npartitions) > 1:
+        raise ValueError(
+            "map_partitions requires all collections to have the same number of "
+            f"partitions or a single partition, got {sorted(npartitions)} "
+            "partitions. Repartition them first; they are not aligned "
+            "automatically."
+        )
     new_expr = expr.MapPartitions(
         args[0],
         func,
